@@ -384,7 +384,7 @@ def check_call(c, kwargs, universe_extra=()):
             return {"outcome": "precondition-false", "failed": [], "detail": lab}
     before = {k: state_of(v) for k, v in kwargs.items()}
     try:
-        result = fn(**kwargs) if not _positional_only(fn) else fn(*kwargs.values())
+        result = _call_real(fn, kwargs)
         exc = None
     except Exception as e:  # noqa: BLE001
         result, exc = None, e
@@ -393,11 +393,13 @@ def check_call(c, kwargs, universe_extra=()):
     if exc is not None:
         name = type(exc).__name__
         declared = None
-        for dn in c.raises:
-            from .exec import exc_real
+        from .exec import exc_real
 
+        for dn in c.raises:
             if isinstance(exc, exc_real(dn)):
                 declared = dn
+        if declared is None and any(isinstance(exc, exc_real(a)) for a in (c.allow_exc or ())):
+            return {"outcome": f"raised {name} (allowed)", "failed": [], "detail": {"exception": f"{name}: {exc}"}}
         if declared is None:
             failed.append(f"no-{name}")
             detail["exception"] = f"{name}: {exc}"
@@ -439,3 +441,21 @@ def check_call(c, kwargs, universe_extra=()):
 
 def _positional_only(fn):
     return False
+
+
+def _call_real(fn, kwargs):
+    """Call the real function; a contract parameter that stands for `*args` is passed as positional arguments."""
+    import inspect
+
+    try:
+        sig = inspect.signature(fn)
+    except (TypeError, ValueError):
+        return fn(**kwargs)
+    star = [p.name for p in sig.parameters.values() if p.kind is inspect.Parameter.VAR_POSITIONAL]
+    if not star or star[0] not in kwargs:
+        return fn(**kwargs)
+    pos = [kwargs[p.name] for p in sig.parameters.values()
+           if p.kind in (inspect.Parameter.POSITIONAL_ONLY, inspect.Parameter.POSITIONAL_OR_KEYWORD) and p.name in kwargs]
+    rest = {k: v for k, v in kwargs.items() if k != star[0] and k not in
+            [p.name for p in sig.parameters.values() if p.kind in (inspect.Parameter.POSITIONAL_ONLY, inspect.Parameter.POSITIONAL_OR_KEYWORD)]}
+    return fn(*pos, *kwargs[star[0]], **rest)
